@@ -76,15 +76,49 @@ def gen(rng, tier):
         for i in (lim, -lim, lim - 1, 1 - lim):
             yield {"segs": [["list", ["idx", i]]], "doc": arr, "seed": 3}
             yield {"segs": ["desc", ["list", ["idx", i], ["idx", 0]]], "doc": arr, "seed": 3}
+    # the same non-empty subtree at several positions (a caller's `[row] * 2`; entry_points evaluates the copy in which equal
+    # containers are ONE object): a traversal that remembers what it has visited must still descend into each occurrence
+    for sub in ({"a": 1, "b": [2, {"a": 3}]}, [1, [2, {"a": 5}]]):
+        for doc in ({"x": sub, "y": [sub, {"a": 4}]}, [sub, sub, [sub]], {"a": {"a": sub}, "b": sub}):
+            for segs in (["desc", ["list", ["name", "a"]]], ["desc", ["list", "wild"]], ["desc", ["list", ["idx", 0]]],
+                         ["desc", ["list", ["idx", -1], ["name", "b"]]], [["list", "wild"], "desc", ["list", ["slice", None, None, -1]]]):
+                yield {"segs": segs, "doc": doc, "seed": 3}
     n = 20000 if thorough else 1500
     for i in range(n):
         doc = rng.choice(docs) if rng.random() < 0.2 else (gen_container(rng, 4, 3, DOC_NAMES) if rng.random() < 0.8 else gen_doc(rng, 3, 3, DOC_NAMES))
         if isinstance(doc, str):
             continue
+        if rng.random() < 0.2:
+            doc = graft(rng, doc)
         segs = Q.gen_std_segs(rng, 4, Q.NAMES) if rng.random() < 0.1 else Q.gen_segs_for_doc(rng, doc, 4)
         if not std_ok(segs) and rng.random() < 0.9:
             continue
         yield {"segs": segs, "doc": doc, "seed": rng.randrange(1 << 30)}
+
+
+def graft(rng, doc):
+    """a copy of the document in which one non-empty container subtree occurs a second time, somewhere else"""
+    import copy
+    doc = copy.deepcopy(doc)
+    subs, hosts = [], []
+
+    def walk(v, depth):
+        if isinstance(v, (dict, list)):
+            hosts.append(v)
+            if v and depth > 0:
+                subs.append(v)
+            for x in (v.values() if isinstance(v, dict) else v):
+                walk(x, depth + 1)
+    walk(doc, 0)
+    if not subs:
+        return doc
+    sub = copy.deepcopy(rng.choice(subs))
+    host = rng.choice(hosts)
+    if isinstance(host, list):
+        host.insert(rng.randint(0, len(host)), sub)
+    else:
+        host[rng.choice(["a", "b", "c", "d"])] = sub
+    return doc
 
 
 def text_of(case):
